@@ -21,3 +21,33 @@ Proof.
       cbn [sltb Rsc] in H. destruct (Rlt_dec t rn); [discriminate|lra].
   - intros [[t [-> H]]|[t [-> H]]]; [left|right]; cbn [sltb Rsc]; destruct (Rlt_dec _ _); try reflexivity; lra.
 Qed.
+
+(* ---- conditional iteration bound: IF every cycle contracts the tested norm by a factor rho < 1, the stop test regenerated
+   from converged() fires within the budget, and the reported mean reduction factor is at most rho.  The premise (contraction
+   for every configuration) is analysis and is NOT proved; see DESIGN.md section 8. ---- *)
+Lemma contraction_power (r : nat -> R) (rho : R) : 0 <= rho ->
+  (forall k, r (S k) <= rho * r k) -> forall k, r k <= rho ^ k * r 0%nat.
+Proof.
+  intros Hrho Hc. induction k as [|k IH]; cbn [pow]; [lra|].
+  specialize (Hc k). assert (rho * r k <= rho * (rho ^ k * r 0%nat)) by (apply Rmult_le_compat_l; assumption). lra.
+Qed.
+
+Theorem stop_within_budget_if_contraction : forall (r : nat -> R) (rho rtol : R) (atol : option R) (K : nat),
+  0 <= rho -> 0 < r 0%nat -> (forall k, r (S k) <= rho * r k) -> rho ^ K <= rtol ->
+  @gen_converged Rsc atol (Some rtol) (r K) (r K / r 0%nat) = true.
+Proof.
+  intros r rho rtol atol K Hrho H0 Hc HK.
+  apply converged_iff_tolerance_met. left. exists rtol. split; [reflexivity|].
+  pose proof (contraction_power r rho Hrho Hc K) as HP.
+  apply (Rmult_le_reg_r (r 0%nat)); [exact H0|].
+  replace (r K / r 0%nat * r 0%nat) with (r K) by (field; lra).
+  assert (rho ^ K * r 0%nat <= rtol * r 0%nat) by (apply Rmult_le_compat_r; lra). lra.
+Qed.
+
+(* the k-th power of the reported mean reduction factor (r_k / r_0)^(1/k) is at most rho^k, i.e. the factor is at most rho *)
+Theorem mean_factor_power_bound : forall (r : nat -> R) (rho : R) (k : nat),
+  0 <= rho -> 0 < r 0%nat -> (forall j, r (S j) <= rho * r j) -> r k / r 0%nat <= rho ^ k.
+Proof.
+  intros r rho k Hrho H0 Hc. pose proof (contraction_power r rho Hrho Hc k) as HP.
+  apply (Rmult_le_reg_r (r 0%nat)); [exact H0|]. replace (r k / r 0%nat * r 0%nat) with (r k) by (field; lra). exact HP.
+Qed.
